@@ -99,18 +99,27 @@ theorem encodeItemC_eq (c : Codec) (v : Val) : encodeItemC c v = encodeItem c v 
 
 /-! ### `save` as coded -/
 
-theorem guard_table : guard 1 1 = 1 ∧ guard 1 0 = 0 ∧ guard 0 1 = 0 ∧ guard 0 0 = 0 := by decide
+/-- the existence guard of `write_dict_hdf5`: a `str` *and* any other path object (`bytes`,
+    `os.PathLike`) that exists is refused; nothing else is -/
+theorem guard_table : guard 1 0 1 = 1 ∧ guard 0 1 1 = 1 ∧ guard 1 1 1 = 1 ∧ guard 0 0 1 = 0 ∧
+    (∀ a b, guard a b 0 = 0) := by
+  refine ⟨by decide, by decide, by decide, by decide, fun a b => ?_⟩
+  simp [Rsa.Gen.C16.guard]
 
-theorem guard_eq (a b : Bool) : (guard (b2n a) (b2n b) == 1) = (a && b) := by
-  cases a <;> cases b <;> decide
+theorem guard_eq (a o b : Bool) : (guard (b2n a) (b2n o) (b2n b) == 1) = ((a || o) && b) := by
+  cases a <;> cases o <;> cases b <;> decide
+
+theorem isPath_split (t : Target) : (t.isStr || t.isOtherPath) = t.isPath := by
+  cases h1 : t.isPath <;> cases h2 : t.asStr <;> simp [Target.isStr, Target.isOtherPath, h1, h2]
 
 theorem writeDictC_eq (c : Codec) (fs : FS) (t : Target) (ft : FType) (rm : Bool) (d : Val) :
     writeDictC c fs t ft rm d = writeDict c fs t ft rm d := by
   unfold writeDictC writeDict
   have h1 : encodeC c = encode c := funext (encodeC_eq c)
   have h2 : encodeItemC c = encodeItem c := funext (encodeItemC_eq c)
-  have h3 : (fun isStr ex => guard (b2n isStr) (b2n ex) == 1) = (fun isStr ex => isStr && ex) := by
-    funext a b; exact guard_eq a b
+  have h3 : (fun isStr isOther ex => guard (b2n isStr) (b2n isOther) (b2n ex) == 1) =
+      (fun isStr isOther ex => (isStr || isOther) && ex) := by
+    funext a o b; exact guard_eq a o b
   rw [h1, h2, h3]
 
 /-- which steps `save` runs, for every kind: the writer of the requested type, after
